@@ -19,7 +19,7 @@ from .numbering import finish
 
 DELTA = {"inc": lambda e: e.get("arg", 0), "get": lambda e: 0, "slow": lambda e: 1,
          "both": lambda e: e.get("arg", 0) + (e.get("arg2") or 0)}
-LOCK_ARM = re.compile(r"\(\s*\*\s*cx\s*\)\s*\.\s*inner\s*\.\s*lock\s*\(\s*\)[^;{}]*?\.\s*and_then\s*\(\s*\|\s*mut\s+cx\s*\|\s*cx\s*\.\s*r#(\w+)\s*\(", re.S)
+LOCK_ARM = re.compile(r"\(\s*\*\s*cx\s*\)\s*\.\s*inner\s*\.\s*lock\s*\(\s*\)[^;{}]*?\.\s*and_then\s*\(\s*\|\s*mut\s+cx\s*\|\s*\{?\s*cx\s*\.\s*r#(\w+)\s*\(", re.S)
 BODY_CALL = re.compile(r"cx\s*\.\s*r#(\w+)\s*\(")
 
 
